@@ -155,6 +155,21 @@ fn parse_args(args: &[&str]) -> Result<ParsedInfo, Box<dyn Error>> {
     })
 }
 
+/// Whether `path` (resolved, as walkdir resolves it) lies on another device than `root`.
+#[cfg(unix)]
+fn on_other_device(root: &str, path: &std::path::Path) -> bool {
+    use std::os::unix::fs::MetadataExt;
+    match (std::fs::metadata(root), std::fs::metadata(path)) {
+        (Ok(root), Ok(entry)) => root.dev() != entry.dev(),
+        _ => false,
+    }
+}
+
+#[cfg(not(unix))]
+fn on_other_device(_root: &str, _path: &std::path::Path) -> bool {
+    false
+}
+
 fn process_dir(
     dir: &str,
     config: &Config,
@@ -236,7 +251,15 @@ fn process_dir(
                 break;
             }
             if matcher_io.should_skip_current_dir() && !config.depth_first {
-                it.skip_current_dir();
+                // walkdir does not enter a directory on another file system
+                // (-xdev): there is nothing to skip then, and skipping would
+                // drop the rest of the parent directory instead.
+                let entered = !(config.same_file_system
+                    && entry.depth() > 0
+                    && on_other_device(dir, entry.path()));
+                if entered {
+                    it.skip_current_dir();
+                }
             }
         }
         if *quit || done {
